@@ -54,6 +54,7 @@ from pandas.errors import PerformanceWarning
 from tlz import merge_sorted, partition, unique
 
 from dask_expr import _core as core
+from dask_expr import _verif
 from dask_expr._util import (
     _calc_maybe_new_divisions,
     _convert_to_list,
@@ -3065,6 +3066,8 @@ def optimize_blockwise_fusion(expr):
     while True:
         original_name = expr._name
         expr, done = _fusion_pass(expr)
+        if _verif.ENABLED:
+            _verif.emit("fusion_pass", after=expr, changed=expr._name != original_name, done=done)
         if done or expr._name == original_name:
             break
 
